@@ -105,6 +105,10 @@ class If(Expr):
             or TealType.anytype not in (then_type, else_type)
         ):
             raise TealTypeError(then_type, else_type)
+        if then_type != else_type:
+            # one arm is anytype: the value can be whatever that arm yields, so the
+            # expression as a whole is anytype (not the type of the first arm)
+            return TealType.anytype
         return then_type
 
     def has_return(self):
